@@ -448,6 +448,7 @@ def main(argv):
         c.broken = {"file": "translate", "log": tlog[-800:]}
     else:
         proved = c.prove("C06")
+        proved = c.prove("C06Mirror") and proved
 
     marks.append(("translate+prove", time.time()))
     # ---- 3. the real code
@@ -680,4 +681,11 @@ def main(argv):
     })
     if st["equivocation"] * 4 < len(done) and not c.replay:
         c.notes.append("equivocation ratio below 25%")
+    # ---- 7. whole histories on the real mirror (validator set and total power change at every height, round changes,
+    # restarts): after every delivered message the summaries of the voting and committing views must be the recomputation
+    # from those views' own signatures and powers (Monitors/MirrorM.v c06_obs_ok); the mirror model is compared too.
+    if not c.replay or "batch_seed" in json.load(open(c.replay)):
+        import mirrorlib
+        mirrorlib.mirror_check(c, "C06", ["c06"], "C06 summaries along mirror histories", quick=(30, 40), thorough=(400, 50),
+                               extra=[], prove=False)
     c.finish()
